@@ -107,6 +107,82 @@ static int run2(int kind, int argc, char **argv, FILE *out)
         free(t); free(p);
         return 0;
 }
+/* bpm_mt <nthreads> <reps> <t1> <p1> <t2> <p2> ... : every pair through bpm_block / bpm (m <= 63) / bpm_256 (m <= 255, AVX2 builds) once in one thread
+   (reference values), then <reps> times from each of <nthreads> threads at the same time (each thread starts at another pair): the kernels are pure
+   functions of their arguments -> "ok calls=<n>" or "mismatch kernel=<k> pair=<i> alone=<v> concurrent=<w> calls=<n>" */
+#include <pthread.h>
+struct mt_job { int npairs, reps, tid; uint8_t **t, **p; int *n, *m; long *ref; long calls; int bad_kernel, bad_pair; long bad_val; };
+static long mt_call(int k, uint8_t *t, uint8_t *p, int n, int m)
+{
+        if(k == 0) return bpm_block(t, p, n, m);
+        if(k == 1) return bpm(t, p, n, m);
+#ifdef HAVE_AVX2
+        return bpm_256(t, p, n, m);
+#else
+        return -1;
+#endif
+}
+static int mt_applies(int k, int m)
+{
+        if(k == 1) return m >= 1 && m <= 63;
+#ifdef HAVE_AVX2
+        if(k == 2) return m >= 1 && m <= 255;
+#else
+        if(k == 2) return 0;
+#endif
+        return 1;
+}
+static void *mt_worker(void *arg)
+{
+        struct mt_job *j = arg;
+        for(int r = 0; r < j->reps && j->bad_kernel < 0; r++){
+                for(int q = 0; q < j->npairs; q++){
+                        int i = (q + j->tid * 3) % j->npairs;
+                        for(int k = 0; k < 3; k++){
+                                if(!mt_applies(k, j->m[i])) continue;
+                                long v = mt_call(k, j->t[i], j->p[i], j->n[i], j->m[i]);
+                                j->calls++;
+                                if(v != j->ref[3 * i + k] && j->bad_kernel < 0){ j->bad_kernel = k; j->bad_pair = i; j->bad_val = v; }
+                        }
+                }
+        }
+        return NULL;
+}
+static int op_bpm_mt(int argc, char **argv, FILE *out)
+{
+        if(argc < 4 || (argc - 2) % 2) return 1;
+        int nt = atoi(argv[0]), reps = atoi(argv[1]), np = (argc - 2) / 2;
+        if(nt < 1 || nt > 64 || reps < 1) return 1;
+        uint8_t **t = calloc(np, sizeof(*t)), **p = calloc(np, sizeof(*p));
+        int *n = calloc(np, sizeof(int)), *m = calloc(np, sizeof(int));
+        long *ref = calloc(3 * np, sizeof(long));
+        int bad = 0;
+        for(int i = 0; i < np && !bad; i++){
+                if(parse_codes(argv[2 + 2 * i], &t[i], &n[i]) || parse_codes(argv[3 + 2 * i], &p[i], &m[i])) bad = 1;
+                else if(any_big(t[i], n[i]) || any_big(p[i], m[i]) || m[i] < 1 || m[i] > n[i]) bad = 1;
+        }
+        if(bad){ fputs("fault", out); goto done; }
+#ifdef HAVE_AVX2
+        set_broadcast_mask();
+#endif
+        for(int i = 0; i < np; i++) for(int k = 0; k < 3; k++) if(mt_applies(k, m[i])) ref[3 * i + k] = mt_call(k, t[i], p[i], n[i], m[i]);
+        {
+                pthread_t th[64]; struct mt_job job[64];
+                for(int a = 0; a < nt; a++){
+                        job[a] = (struct mt_job){ np, reps, a, t, p, n, m, ref, 0, -1, -1, 0 };
+                        pthread_create(&th[a], NULL, mt_worker, &job[a]);
+                }
+                long calls = 0; int first = -1;
+                for(int a = 0; a < nt; a++){ pthread_join(th[a], NULL); calls += job[a].calls; if(job[a].bad_kernel >= 0 && first < 0) first = a; }
+                if(first < 0) fprintf(out, "ok calls=%ld", calls);
+                else fprintf(out, "mismatch kernel=%s pair=%d alone=%ld concurrent=%ld calls=%ld", (const char*[]){"bpm_block", "bpm", "bpm_256"}[job[first].bad_kernel],
+                             job[first].bad_pair, ref[3 * job[first].bad_pair + job[first].bad_kernel], job[first].bad_val, calls);
+        }
+done:
+        for(int i = 0; i < np; i++){ free(t[i]); free(p[i]); }
+        free(t); free(p); free(n); free(m); free(ref);
+        return 0;
+}
 static int op_bpm_block(int c, char **v, FILE *o){ return run2(K_BLOCK, c, v, o); }
 static int op_bpm(int c, char **v, FILE *o){ return run2(K_BPM, c, v, o); }
 static int op_bpm_256(int c, char **v, FILE *o){ return run2(K_256, c, v, o); }
@@ -263,6 +339,7 @@ struct kv_op kv_ops_bpm[] = {
         {"bpm_block", op_bpm_block},
         {"bpm", op_bpm},
         {"bpm_256", op_bpm_256},
+        {"bpm_mt", op_bpm_mt},
         {"bpm_256_ub", op_bpm_256_ub},
         {"dyn_256", op_dyn_256},
         {"sellers", op_sellers},
